@@ -23,3 +23,78 @@ TWINS = [
     {"name": "headers-get-key-renamed-local", "edits": [(H, "        ikey = key.lower()\n\n        for k, v in self._list:\n            if k.lower() == ikey:\n                return v", "        wanted = key.lower()\n\n        for k, v in self._list:\n            if wanted == k.lower():\n                return v")]},
     {"name": "copy-with-list-call", "edits": [(S, "super().__init__((k, vs[:]) for k, vs in mapping.lists())", "super().__init__((k, list(vs)) for k, vs in mapping.lists())")]},
 ]
+
+# ---------------------------------------------------------------------------------------------------------------------
+# round 2: further behaviour-preserving shapes the rules accept (decided on the inlined call graph), and for each of
+# them a defect planted in that shape (``_derive``: the twin's edits with one fragment of the new text replaced)
+
+ROUND2_TWINS = [
+    {"name": "headers-get-key-tuple-assignment-helper-compare", "edits": [
+        (H, "        ikey = key.lower()\n\n        for k, v in self._list:\n            if k.lower() == ikey:\n                return v\n\n        raise BadRequestKeyError(key)", "        wanted, missing = key.lower(), BadRequestKeyError(key)\n\n        for k, v in self._list:\n            if self._same(k, wanted):\n                return v\n\n        raise missing\n\n    @staticmethod\n    def _same(name: str, folded: str) -> bool:\n        return name.lower() == folded"),
+    ]},
+    {"name": "headers-del-key-comprehension-conditional-lower", "edits": [
+        (H, "        key = key.lower()\n        new = []\n\n        for k, v in self._list:\n            if k.lower() != key:\n                new.append((k, v))\n\n        self._list[:] = new", "        folded = key.lower() if key else \"\"\n        self._list[:] = [item for item in self._list if item[0].lower() != folded]"),
+    ]},
+    {"name": "headerset-find-next-generator-remove-split-helpers", "edits": [
+        (S, "        header = header.lower()\n        for idx, item in enumerate(self._headers):\n            if item.lower() == header:\n                return idx\n        return -1", "        wanted = header.lower()\n        return next((i for i, item in enumerate(self._headers) if item.lower() == wanted), -1)"),
+        (S, "        self._set.remove(key)\n        for idx, item in enumerate(self._headers):\n            if item.lower() == key:\n                del self._headers[idx]\n                break\n        if self.on_update is not None:\n            self.on_update(self)", "        self._forget(key)\n        self._unlist(key)\n        if self.on_update is not None:\n            self.on_update(self)\n\n    def _forget(self, folded: str) -> None:\n        self._set.remove(folded)\n\n    def _unlist(self, folded: str) -> None:\n        for idx, item in enumerate(self._headers):\n            if item.lower() == folded:\n                del self._headers[idx]\n                break"),
+    ]},
+    {"name": "multidict-init-renamed-local-star-copy-getlist-copy", "edits": [
+        (S, "            tmp = {}\n            for key, value in mapping.items():\n                if isinstance(value, (list, tuple, set)):\n                    value = list(value)\n\n                    if not value:\n                        continue\n                else:\n                    value = [value]\n                tmp[key] = value\n            super().__init__(tmp)  # type: ignore[arg-type]", "            data = {}\n            for key, value in mapping.items():\n                values = [*value] if isinstance(value, (list, tuple, set)) else [value]\n                if values:\n                    data[key] = values\n            super().__init__(data)  # type: ignore[arg-type]"),
+        (S, "        if type is None:\n            return list(rv)\n        result = []\n        for item in rv:\n            try:\n                result.append(type(item))", "        if type is None:\n            return rv.copy()\n        result = []\n        for item in rv:\n            try:\n                result.append(type(item))"),
+    ]},
+    {"name": "multidict-copy-through-local-class-setlist-local", "edits": [
+        (S, "        return self.__class__(self)\n\n    def deepcopy", "        cls = type(self)\n        return cls(self)\n\n    def deepcopy"),
+        (S, "        super().__setitem__(key, list(new_list))  # type: ignore[assignment]", "        own = list(new_list)\n        super().__setitem__(key, own)  # type: ignore[assignment]"),
+    ]},
+    {"name": "environ-headers-len-via-list-getitem-direct", "edits": [
+        (H, "    def __len__(self) -> int:\n        return sum(1 for _ in self)", "    def __len__(self) -> int:\n        return len(list(iter(self)))"),
+        (H, "        return self.environ is other.environ\n", "        mine = self.environ\n        return mine is other.environ\n"),
+    ]},
+    {"name": "hash-read-cache-once-compute-if-none", "edits": [
+        (M, "        if self._hash_cache is not None:\n            return self._hash_cache\n        rv = self._hash_cache = hash(frozenset(self._iter_hashitems()))\n        return rv", "        rv = self._hash_cache\n        if rv is None:\n            material = frozenset(self._iter_hashitems())\n            rv = self._hash_cache = hash(material)\n        return rv"),
+    ]},
+    {"name": "headerset-setitem-lowered-locals", "edits": [
+        (S, "        old = self._headers[idx]\n        self._set.remove(old.lower())\n        self._headers[idx] = value\n        self._set.add(value.lower())", "        old_key, new_key = self._headers[idx].lower(), value.lower()\n        self._set.remove(old_key)\n        self._headers[idx] = value\n        self._set.add(new_key)"),
+    ]},
+]
+
+
+def _derive(twin_name, repl):
+    tw = next(t for t in ROUND2_TWINS if t["name"] == twin_name)
+    out = []
+    hit = 0
+    for rel, old, new in tw["edits"]:
+        for a, b in repl:
+            if a in new:
+                assert new.count(a) == 1, (twin_name, a)
+                new = new.replace(a, b)
+                hit += 1
+        out.append((rel, old, new))
+    assert hit == len(repl), (twin_name, hit)
+    return out
+
+
+ROUND2_MUTANTS = [
+    {"name": "shape:tuple-assigned-key-raw", "expect": "R8.2", "edits": _derive("headers-get-key-tuple-assignment-helper-compare", [("wanted, missing = key.lower(), BadRequestKeyError(key)", "wanted, missing = key, BadRequestKeyError(key)")])},
+    {"name": "shape:compare-helper-raw-side", "expect": "R8.2", "edits": _derive("headers-get-key-tuple-assignment-helper-compare", [("        return name.lower() == folded", "        return name == folded")])},
+    {"name": "shape:conditional-lower-one-arm-raw", "expect": "R8.2", "edits": _derive("headers-del-key-comprehension-conditional-lower", [("key.lower() if key else \"\"", "key.lower() if key.islower() else key")])},
+    {"name": "shape:next-generator-raw", "expect": "R8.2", "edits": _derive("headerset-find-next-generator-remove-split-helpers", [("        wanted = header.lower()\n        return next(", "        wanted = header\n        return next(")])},
+    {"name": "shape:split-helper-forgets-list", "expect": "R8.3", "edits": _derive("headerset-find-next-generator-remove-split-helpers", [("        self._forget(key)\n        self._unlist(key)\n", "        self._forget(key)\n")])},
+    {"name": "shape:renamed-local-shares-list", "expect": "R8.4", "edits": _derive("multidict-init-renamed-local-star-copy-getlist-copy", [("values = [*value] if isinstance(value, (list, tuple, set)) else [value]", "values = value if isinstance(value, list) else [value]")])},
+    {"name": "shape:getlist-copy-dropped", "expect": "R8.4", "edits": _derive("multidict-init-renamed-local-star-copy-getlist-copy", [("            return rv.copy()", "            return rv")])},
+    {"name": "shape:setlist-local-not-copied", "expect": "R8.4", "edits": _derive("multidict-copy-through-local-class-setlist-local", [("        own = list(new_list)", "        own = new_list")])},
+    {"name": "shape:copy-returns-self", "expect": "R8.4", "edits": _derive("multidict-copy-through-local-class-setlist-local", [("        return cls(self)", "        return self if cls is MultiDict else cls(self)")])},
+    {"name": "shape:environ-len-cached", "expect": "R8.5", "edits": _derive("environ-headers-len-via-list-getitem-direct", [("        return len(list(iter(self)))", "        self._n = len(list(iter(self)))\n        return self._n")])},
+    {"name": "shape:hash-material-a-tuple", "expect": "R8.6", "edits": _derive("hash-read-cache-once-compute-if-none", [("material = frozenset(self._iter_hashitems())", "material = tuple(self._iter_hashitems())")])},
+    {"name": "shape:setitem-lowered-local-raw", "expect": "R8.3", "edits": _derive("headerset-setitem-lowered-locals", [("self._headers[idx].lower(), value.lower()", "self._headers[idx].lower(), value")])},
+]
+ROUND2_TWINS.append({"name": "list-mixin-rejects-through-private-helper", "edits": [
+    (M, "    def append(self, item: t.Any) -> t.NoReturn:\n        _immutable_error(self)\n\n", "    def _reject(self) -> t.NoReturn:\n        _immutable_error(self)\n\n    def append(self, item: t.Any) -> t.NoReturn:\n        self._reject()\n\n"),
+]})
+ROUND2_MUTANTS.append({"name": "shape:reject-helper-returns", "expect": "R8.1", "edits": _derive("list-mixin-rejects-through-private-helper", [("    def _reject(self) -> t.NoReturn:\n        _immutable_error(self)", "    def _reject(self) -> None:\n        return None")])})
+ROUND2_TWINS.append({"name": 'remove-via-find', "edits": [(S, '        key = header.lower()\n        if key not in self._set:\n            raise KeyError(header)\n        self._set.remove(key)\n        for idx, item in enumerate(self._headers):\n            if item.lower() == key:\n                del self._headers[idx]\n                break\n        if self.on_update is not None:', '        idx = self.find(header)\n        if idx < 0:\n            raise KeyError(header)\n        del self._headers[idx]\n        self._set.remove(header.lower())\n        if self.on_update is not None:')]})
+ROUND2_TWINS.append({"name": 'init-set-map-lower', "edits": [(S, '        self._set = {x.lower() for x in self._headers}', '        self._set = set(map(str.lower, self._headers))')]})
+ROUND2_TWINS.append({"name": 'clear-rebinding', "edits": [(S, '        self._set.clear()\n        self._headers.clear()\n', '        self._set = set()\n        self._headers = []\n')]})
+TWINS = TWINS + ROUND2_TWINS
+MUTANTS = MUTANTS + ROUND2_MUTANTS
